@@ -277,6 +277,75 @@ theorem text_frame (frame args : Nat) :
     obtain ⟨e1, e2⟩ := NumText.takeWhile_all (· != '-') (NumText.digits 10 frame) (NumText.digits_no_minus frame)
     rw [e1, e2, NumText.parseNat_digits 10 (by omega) (by omega)]
 
+/-- **C16 (TEXT line as the assembler reads it).**  Below 2^31 the frame the
+assembler allocates is `FrameBytes()`.  The bound is an explicit hypothesis the
+property's quantifier does not grant: see `text_frame_wraps`. -/
+theorem asm_text_frame (frame args : Nat) (h : (frame : Int) < Avo.BP.frameLimit) :
+    asmTextFrame (textSize frame args) = some (frame : Int) := by
+  unfold asmTextFrame
+  rw [text_frame]
+  simp only [Option.map_some]
+  rw [Avo.BP.autoffset_of_lt _ (by omega) h]
+
+/-- **The property fails at 2^31 (finding C16-frame-int32).**  `AllocLocal(1<<31)`
+is handed out as `[0, 2^31)` and printed as `$2147483648`; the assembler
+allocates NO frame for that text, so the region is not inside the frame (it is
+the return address and the caller's frame). -/
+theorem text_frame_wraps :
+    compile [.alloc 2147483648] false = some ⟨[⟨0, 2147483648⟩], none, 2147483648⟩ ∧
+    asmTextFrame (textSize 2147483648 0) = some 0 ∧
+    ¬ LocalsOK [⟨0, 2147483648⟩] 0 := by
+  refine ⟨by decide, by decide +kernel, ?_⟩
+  rw [← acceptLocals_iff]; decide
+
+/-- Soundness of the acceptor used on the implementation's regions and printed
+TEXT size: what it accepts satisfies the property against the frame the
+assembler really allocates. -/
+theorem acceptLocalsText_sound (rs : List Region) (text : List Char) (h : acceptLocalsText rs text = true) :
+    ∃ fr, asmTextFrame text = some fr ∧ LocalsOK rs fr := by
+  unfold acceptLocalsText at h
+  cases hf : asmTextFrame text with
+  | none => simp [hf] at h
+  | some fr => simp only [hf] at h; exact ⟨fr, rfl, (acceptLocals_iff rs fr).mp h⟩
+
+/-- **C16 end to end (model)**: for every interleaving of non-negative
+allocations with instructions whose total stays below 2^31, the regions handed
+out (and the forced local) satisfy the property against the frame the assembler
+allocates for the printed TEXT line. -/
+theorem locals_in_text_frame (ops : List Op) (noframe : Bool) (c : Compiled) (args : Nat)
+    (hn : NonNeg ops) (hc : compile ops noframe = some c) (hlt : c.frame < Avo.BP.frameLimit) :
+    acceptLocalsText (c.regions ++ c.forced.toList) (textSize c.frame args) = true := by
+  obtain ⟨hok, _, hfr⟩ := locals_ok ops noframe c hn hc
+  have h0 : 0 ≤ c.frame := by
+    have hs : ∀ l : List Int, (∀ s ∈ l, 0 ≤ s) → 0 ≤ sumInt l := by
+      intro l; induction l with
+      | nil => intro _; simp [sumInt]
+      | cons x xs ih =>
+        intro h
+        have := ih (fun s hs => h s (List.mem_cons_of_mem _ hs))
+        have := h x List.mem_cons_self
+        simp only [sumInt]; omega
+    have := hs (allocSizes ops) hn
+    unfold compile at hc
+    obtain ⟨_, hcase⟩ := ensureBP_some _ noframe c hc
+    rcases hcase with ⟨hfo, _⟩ | ⟨_, _, hfo, _⟩ <;> rw [hfo] at hfr <;> simp only at hfr <;> omega
+  obtain ⟨n, hn'⟩ : ∃ n : Nat, c.frame = (n : Int) := ⟨c.frame.toNat, by omega⟩
+  unfold acceptLocalsText
+  rw [hn', asm_text_frame n args (by omega)]
+  simp only
+  rw [acceptLocals_iff, ← hn']
+  exact hok
+
+/-- The hypotheses of `locals_in_text_frame` are satisfiable (non-vacuity): an unaligned local, an empty one, a
+BP write, 8 argument bytes. -/
+example : acceptLocalsText [⟨0, 3⟩, ⟨3, 0⟩, ⟨3, 16⟩] (textSize 19 8) = true :=
+  locals_in_text_frame [.alloc 3, .instr false, .alloc 0, .alloc 16, .instr true] false ⟨[⟨0, 3⟩, ⟨3, 0⟩, ⟨3, 16⟩], none, 19⟩ 8
+    (by intro s hs; simp [allocSizes] at hs; omega) (by decide) (by decide)
+example : acceptLocalsText [⟨0, 3⟩, ⟨3, 0⟩, ⟨3, 16⟩] "$19-8".toList = true := by decide +kernel
+example : acceptLocalsText [⟨0, 2147483648⟩] "$2147483648".toList = false := by decide +kernel
+example : acceptLocalsText [⟨0, 8⟩] "$4294967304".toList = true := by decide +kernel     -- 2^32+8 is an 8-byte frame
+example : acceptLocalsText [⟨0, 16⟩] "$4294967304".toList = false := by decide +kernel
+
 /-- **C16 (operand).** The operand returned by `AllocLocal` prints as a plain
 hardware-SP reference whose displacement is the region's offset. -/
 theorem stack_addr_text (off : Nat) : parseStackAddr (stackAddrAsm off) = some (off : Int) := by
